@@ -84,6 +84,11 @@ def make_spec(rng, pt, pf, ps, fn, sr, pbh, strat, hdr, size):
     if sr is not None:
         spec["source"]["as_table"] = sr == "table"
     spec["body"]["pageby_header"] = pbh
+    if isinstance(spec.get("colheader"), list) and spec["colheader"] and rng.random() < 0.12:
+        # a header row whose labels are all blank is still a header row
+        for hrow in spec["colheader"]:
+            if isinstance(hrow.get("text"), list) and len(hrow["text"]) >= 2:
+                hrow["text"] = [rng.choice(["", " "]) for _ in hrow["text"]]
     # page header / footer with several lines and per-line attributes (alignment, font, size ...): still ONE
     # destination each
     if rng.random() < 0.35:
